@@ -519,6 +519,47 @@ def rule_label_list_dispatch(ctx, rid='R7'):
         ctx.violated(rid, fi, 'label-list dispatch', '_init_axes has no branch for axes given as a list of label sequences (Axes.from_arrays)')
 
 
+RENAME_ROUTES = [
+    ('dimarray.core.bases.AbstractHasAxes._set_dims', 'a.dims = (...) / a.dims = {old: new}'),
+    (AX + 'Axes.__setitem__', 'a.axes[k] = Axis(values, name)'),
+    (CLS + 'DimArray.set_axis', 'a.set_axis(name=...)'),
+    ('dimarray.dataset.Dataset.set_axis', 'ds.set_axis(name=...)'),
+    ('dimarray.dataset.Dataset.dims.setter', 'ds.dims = (...)'),
+]
+
+
+def rule_rename_routes(ctx, rid='R4'):
+    """"dimension names that are distinct ... duplicate dimension names are rejected with an exception" also after renaming: every array-level route that can
+    give an axis a new name must refuse a name another axis of the same array already has (Axis.name itself cannot know its siblings)."""
+    for q, how in RENAME_ROUTES:
+        fi = ctx.P.functions.get(q)
+        if fi is None:
+            ctx.undecide(rid, 'rename route %s vanished' % q)
+            continue
+        ev = run(ctx, fi, mode='fork', max_paths=20000)
+        def is_dup_test(a):
+            sh = T.show(a)
+            # len(set(names)) != len(names)   |   newname in <names of the array>
+            if a[0] == 'cmp' and a[1] == '==' and 'len(' in sh and 'set(' in sh:
+                return 'eq'
+            if a[0] == 'cmp' and a[1] == 'in' and ('name' in T.show(a[2]) or a[2][0] == 'param') and ('dims' in T.show(a[3]) or 'name' in T.show(a[3])):
+                return 'in'
+            return None
+        rejects = False
+        for p in raise_paths(ev):
+            if exc_name(p.value) != 'ValueError':
+                continue
+            for a, pol in p.guards:
+                k = is_dup_test(a)
+                if (k == 'eq' and pol is False) or (k == 'in' and pol is True):
+                    rejects = True
+        if rejects:
+            ctx.holds(rid, '%s: a name already used by another axis is refused' % how)
+        else:
+            ctx.violated(rid, fi, 'rename to an existing dimension name accepted', '%s gives an axis a new name without testing it against the other dimension names of the array: '
+                         'the array ends up with dims like (\'y\', \'y\'), after which a.axes[\'y\'], a.sum(axis=\'y\') ... silently address the first of the two' % how, node=fi.node)
+
+
 def rule_axis_setitem(ctx, rid='R3'):
     """Axis.__setitem__ (used by reindex_axis to write the labels of newly inserted positions, and by ds.axes[d][i] = label): the labels are written into the
     buffer that is stored in _values - when the dtype has to be widened (int labels receiving float labels) _maybe_cast_type returns a new array"""
@@ -735,6 +776,7 @@ def check(ctx):
     rule_setter_guards(ctx)
     rule_axis_setitem(ctx, 'R3')
     rule_names(ctx)
+    rule_rename_routes(ctx, 'R4')
     rule_axis_shape(ctx)
     rule_cache(ctx)
     rule_forms(ctx)
